@@ -395,6 +395,9 @@ func nontrivial(name []byte) bool {
 		case '.', '/', '\\', 0, ' ', '~', 0xff:
 			return true
 		}
+		if c >= 0x80 {
+			return true
+		}
 	}
 	return false
 }
@@ -478,9 +481,14 @@ func TestDisabledAndControl(t *testing.T) {
 }
 
 func TestRandomNames(t *testing.T) {
-	pieces := []string{"..", "/", "a", "Z9_", ".gr", ".", "\\", "\x00", " ", "~", "\xff", "ok", "sub", "inner", "outside", "cwd", "link", "/etc/passwd", "é", "%2e", "a.gr.gr", ".gr.gr", "gr", "A_b"}
+	pieces := []string{"..", "/", "a", "Z9_", ".gr", ".", "\\", "\x00", " ", "~", "\xff", "ok", "sub", "inner", "outside", "cwd", "link", "/etc/passwd", "é", "%2e", "a.gr.gr", ".gr.gr", "gr", "A_b",
+		// code points above U+00FF whose low byte is a letter, digit or underscore (a byte-wise check on a rune would let them pass)
+		"♥", "‰", "≡", "ş", "Ł", "İ", "😀", "g", "r"}
 	pbt.Check(t, 40, 1500, func(rt *rapid.T) {
 		var names [][]byte
+		for _, p := range pieces { // every piece alone and next to a plain letter
+			names = append(names, []byte(p), []byte("a"+p), []byte(p+"b"))
+		}
 		for i := 0; i < 150; i++ {
 			names = append(names, []byte(strings.Join(rapid.SliceOfN(rapid.SampledFrom(pieces), 0, 5).Draw(rt, "name"), "")))
 		}
